@@ -548,7 +548,13 @@ pub(crate) async fn run_actor_lifecycle<T: Actor>(
             // Messages can be: regular message envelopes or graceful stop signals
             maybe_message = receiver.recv() => {
                 match maybe_message {
-                    Some(MailboxMessage::Envelope { payload, reply_channel, actor_ref }) => {
+                    Some(MailboxMessage::Envelope {
+                        payload,
+                        reply_channel,
+                        actor_ref,
+                        #[cfg(feature = "deadlock-detection")]
+                        wait_for_edge,
+                    }) => {
                         #[cfg(feature = "tracing")]
                         let msg_span = tracing::debug_span!("actor_process_message");
                         #[cfg(not(feature = "tracing"))]
@@ -568,7 +574,13 @@ pub(crate) async fn run_actor_lifecycle<T: Actor>(
 
                         run_with_actor_scope!(
                             actor_id,
-                            payload.handle_message(&mut actor, actor_ref, reply_channel)
+                            payload.handle_message(
+                                &mut actor,
+                                actor_ref,
+                                reply_channel,
+                                #[cfg(feature = "deadlock-detection")]
+                                wait_for_edge,
+                            )
                                 .instrument(msg_span)
                         );
 
